@@ -9,7 +9,7 @@ LEVEL = "exploration"
 RULE = ("recorded sets built by the harness (1..40 individuals, 1..5 generation tags in arbitrary recording order or all -1, "
         "duplicate values, costs closer than the precision declared on the individuals with signed copies made by the library's "
         "calc_signed_costs, 1..3 goals with random criteria, 1..4 parameters) queried through every Results method of the "
-        "statement and compared with a recomputation from the recorded individuals; random point sets through gd/epsilon_add "
+        "statement (also a second time after more recording, and after the record changed without changing its length) and compared with a recomputation from the recorded individuals; random point sets through gd/epsilon_add "
         "against independent implementations. non-trivial = recorded set with >=2 tags or duplicate values / indicator case "
         "with >=2 points per set; distinct by the recorded data")
 ASSUMPTIONS = ["no pairing is demanded between parameters() and costs() (different documented orders)"]
@@ -333,6 +333,7 @@ def run_case(ctx, name, params):
 
 def requirements(ctx):
     ctx.require("population_checks", 200)
+    ctx.require("queries_repeated_after_same_length_change", 50)
     ctx.require("pairing_checks", 500)
     ctx.require("optimum_checks", 100)
     ctx.require("gd_checks", 200)
